@@ -80,6 +80,11 @@ def main():
         unplace()
         if a.baseline:
             rc, out = sh("%s/tools/baseline.sh %s" % (V, wt))
+            if rc != 0:
+                # pkg/station/lib's own suite hangs now and then on a loaded machine, also on the clean tree
+                # (the whole package then reports nothing): one more try before the patch is blamed
+                res["baseline_first_try_tail"] = out[-1500:]
+                rc, out = sh("%s/tools/baseline.sh %s" % (V, wt))
             res["baseline_rc"] = rc
             res["baseline_tail"] = out[-6000:]
         res["checks"] = {}
@@ -90,8 +95,8 @@ def main():
         if not a.baseline and "baseline_rc" in prior:
             res["baseline_rc"] = prior["baseline_rc"]
             res["baseline_tail"] = prior.get("baseline_tail", "")
+        res["checks"] = dict(prior.get("checks", {}))   # results of properties not run this time are kept
         if a.no_check:
-            res["checks"] = prior.get("checks", {})
             props = []
         for p in props:
             t = time.time()
